@@ -54,6 +54,11 @@ ReduceStep(T, cf, p, n) ==
           ELSE [cf EXCEPT !.stack = Append(base, [st |-> g, s |-> sp.s, e |-> sp.e]),
                           !.nred = @ + 1]
 
+\* next_token with a Layout rule: the nested layout parser runs on the SAME context,
+\* so after it consumed layout up to position p the context span is the span of the
+\* last layout token (which ends at p).  Only the end matters (EMPTY reductions).
+LayoutParsed(cf, p) == [cf EXCEPT !.cs = p, !.ce = p]
+
 \* One step of the main loop with lookahead token tok = [t, s, e].
 Step(T, cf, tok) ==
   LET a == FirstAction(T, cf, tok.t)
